@@ -173,6 +173,10 @@ def check(ctx):
             elif match(r, Call("Iterator::sum", Call("Iterator::map", Param(1), ANY, nargs=2), nargs=1)):
                 clo = r[3][0][3][1]
                 good = clo[0] == "agg" and clo[1] == "closure" and check_payload_closure(ctx, clo[2])
+            elif r[0] == "agg" and r[1] == "adt" and len(r[3]) == 1 and match(r[3][0], Call("Iterator::sum", Call("Iterator::map", Param(1), ANY, nargs=2), nargs=1)):
+                # Self(iter.map(|Self(x)| x).sum()): the payloads are summed and wrapped again
+                clo = r[3][0][3][0][3][1]
+                good = clo[0] == "agg" and clo[1] == "closure" and check_payload_closure(ctx, clo[2])
             extra = [c for c in ps[0].calls() if not callee_is(c, "Iterator::sum", "Iterator::map")]
             good = good and not extra
         ctx.check(good, "R15.4", "Sum/" + fn.id.split(" as ")[0].lstrip("<").replace("ec_core::test_results::", "") + "/" + fn.id.split("Sum<")[-1].split(">>")[0][:40],
